@@ -8,14 +8,17 @@ import subprocess
 VERIF = os.path.dirname(os.path.dirname(os.path.abspath(__file__)))
 
 NOTE_COMMON = ("Trusted: Lean 4.33 kernel; axioms of every property theorem within {propext, Classical.choice, "
-               "Quot.sound} (audited each run; no sorry / native_decide / own axioms); tools/translate.py; "
+               "Quot.sound} (audited each run; no sorry / native_decide / own axioms); tools/translate.py and its code "
+               "translator tools/pysym.py (symbolic execution of python source into Lean, DESIGN 11.7); "
                "the correspondence harness (hand-written model == implementation only on generated cases); "
                "python/re/decimal/PLY runtime semantics as modelled. ")
 
 # id -> (technique, level text, level note, design ref)
+T_CODE_ACT = ' + code translated from the source on every run by symbolic execution (tools/pysym.py): the semantic actions p_* with HeadTailManager / create_operation / constructors (Props/GenActions: model act = generated function for all 25 productions), HeadTailLexer.handle as effects (Props/GenHandle), __str__ of every class and Item.span (Props/GenPrint)'
 T_CORR = " + correspondence (model vs implementation, differential) + python oracle for the failing-input search"
 CLAIMED = {
-    "C01": ("Lean 4 proof: table-independent LR-run invariant (flat text), lexer slicing lemma, kernel-checked table facts" + T_CORR,
+    "C01": ("Lean 4 proof: table-independent LR-run invariant (flat text), lexer slicing lemma, kernel-checked table facts"
+            + T_CODE_ACT + T_CORR,
             "Theorem parse_lossless_partial: for every string s, if the model's parse accepts s and no blank stands directly "
             "before a ':' (known finding KF1), printing the tree with heads/tails in source numeral spelling gives back s "
             "character for character; the run lemma holds for ARBITRARY LALR tables (any shift, any reduce), three decide "
@@ -25,10 +28,13 @@ CLAIMED = {
             "with the separators between a field name and its ':' removed, nothing else), parse_lossless_iff (prints s "
             "iff there is no such separator), unblank_sublist / unblank_nonblank (only blanks are lost), bad_colon_fails, "
             "reparse_unblank_partial (the printed text re-parses to an eqv tree unless the time clash KF8 arises).",
-            NOTE_COMMON + "Lexer, head/tail, grammar actions, printing are hand-modelled (tables and regex trees are "
-            "translated). Numeral re-spelling (render/normalize) is modelled; its arithmetic lemmas are not proved yet.", "5 C01"),
+            NOTE_COMMON + "The token recognisers and PLY's driver loop are hand-modelled (master regex tree and tables are "
+            "translated data); grammar actions, head/tail bookkeeping and printing are hand-modelled AND proved equal to "
+            "the functions translated from the python source (GenActions, GenHandle, GenPrint). Numeral re-spelling: "
+            "Props/C01Num (plain literal, same value, fixed point).", "5 C01"),
     "C02": ("Lean 4 proof: run invariant Laid (every stack value is positioned where its text sits) over the LR run, per-action "
-            "size/pos arithmetic, table fact from the kernel-checked certificate (right operand never of the class being built)" + T_CORR,
+            "size/pos arithmetic, table fact from the kernel-checked certificate (right operand never of the class being built)"
+            + T_CODE_ACT + T_CORR,
             "Theorems: parse_laid_partial (for every accepted string without a blank before ':' (KF1), every node's pos is the "
             "offset of its text and size the length of its text printed without head and tail, recursively for all "
             "descendants), node_slices_partial (slice(pos,size) = node printed without head/tail; widened slice = printed "
@@ -41,12 +47,15 @@ CLAIMED = {
             "node_slices_exact: re-inserting the lost separators (regap) gives a tree that prints s and is Laid, every "
             "node's slice is its text with those gaps, a leaf is exactly its slice, field_gap_exact. Correspondence and "
             "per-node oracle as before.",
-            NOTE_COMMON + "HeadTailManager arithmetic is hand-modelled (Model/Parser.lean mgrPos/binaryOp); Item.span is modelled in "
-            "Lemmas/LaidPath.lean.", "5 C02"),
+            NOTE_COMMON + "HeadTailManager arithmetic (Model/Parser.lean mgrPos/binaryOp) and Item.span (Lemmas/LaidPath.lean) are "
+            "hand-modelled and proved equal to the functions translated from the python source (GenActions, GenPrint: "
+            "gen_span_*).", "5 C02"),
     "C03": ("Lean 4 proof: kernel-checked abstract-interpretation certificate of the generated LALR tables (every parse result is "
             "canonical w.r.t. precedence), lock-step simulation (layout independence), yield theorem; translator obligations "
             "(tables fresh, regex trees, reserved map) by decide + three-way differential (implementation / LR model / "
-            "independent precedence-climbing spec)",
+            "independent precedence-climbing spec) + semantic actions translated from the source by symbolic execution "
+            "(tools/pysym.py; Props/GenActions: group -> field group, inclusiveness from the bracket text, flattening in "
+            "create_operation)",
             "Theorems: parse_canon (for every string, the tree returned satisfies CanonAt: an AND node has no un-parenthesised "
             "OR/implicit operand, OR none implicit, prefixes/fields/boosts apply to non-operations, n-ary nodes are flat with "
             ">= 2 operands, parentheses give a FieldGroup exactly under a field, range bounds/fuzzy/proximity operands are "
@@ -67,7 +76,7 @@ CLAIMED = {
             "(the grammar is unambiguous up to ==), and the precedence examples of the property as derivations.",
             NOTE_COMMON + "Semantic actions and lexer recognisers are hand-modelled; tables, precedence, regex trees and the "
             "certificate are translated from the live objects (the certificate generator is untrusted: only its kernel check counts).", "5 C03"),
-    "C04": ('Lean 4 proof (totality: parse never yields a model-internal error; fuel sufficiency; history independence on a stateful lexer model) + correspondence over call histories with forked history-free references',
+    "C04": ('Lean 4 proof (totality: parse never yields a model-internal error; fuel sufficiency; history independence on a stateful lexer model) + HeadTailLexer.handle and the number conversions of p_fuzzy / p_boosting / p_proximity translated from the source by symbolic execution (tools/pysym.py; Props/GenHandle, Props/GenActions) + correspondence over call histories with forked history-free references (repeated strings, results edited in place by the caller)',
             'Theorems: parse_total / parse_outcomes (for every string a tree or one of the two ParseError classes, nothing else: parse_never_internal rests on an LR stack-consistency invariant whose table facts are decide +kernel certificates, and runLoop_fuel_ok); lex_history_independent (for EVERY previous lexer state, stale tracker and mid-input position included, tokenising s gives lex s, because the first lexeme starts at offset 0), parseCall_eq_parse, nth_call_eq_parse, entry_points_agree. Correspondence: histories of 2-8 calls through both entry points against forked children that never parsed anything.',
             NOTE_COMMON + "PLY's own lexer/parser loop is modelled (Model/Stateful.lean, Parser.lean); RecursionError/MemoryError outside the claim.", "5 C04"),
     "C05": ('Lean 4 proof (reject-or-equivalent: build_meaning on nested documents, boolean part without document hypothesis) + correspondence (JSON and messages equal) + reference semantics on random documents',
@@ -79,15 +88,18 @@ CLAIMED = {
     "C07": ('Lean 4 proof (refuses_exactly: misuse / mix characterisation in all four directions) + correspondence + independent refusal predicate',
             'Theorems: nestingCheck_ok_iff / nestingCheck_error_iff (the checker raises exactly on the first misused container term), orAnd_only_on_mix, mix_refused, misuse_refused, translated (Supported: every query that is not refused is translated, no other exception), refuses_exactly; spec-normalisation lemmas for equivalent spellings. Negative witnesses (IndexError on one-operand mixes, regex after field, non-term range bound, KF5) by decide.',
             NOTE_COMMON + 'KF5 recognised by recomputing the python predicate with parents-of-leaves as containers.', "5 C07"),
-    "C08": ("Lean 4 proof (visitEvents = preorder map dispatch, cache consistency, preorder context, copy lemmas)" + T_CORR,
+    "C08": ("Lean 4 proof (visitEvents = preorder map dispatch, cache consistency, preorder context, copy lemmas) + clone_item "
+            "translated from the source by symbolic execution (tools/pysym.py; Props/GenClone: the model's cloneItem is the "
+            "generated function, and the object returned is always new)" + T_CORR,
             "Theorems: for every handler table, consistent cache, tree: the events of a visit are exactly the pre-order "
             "enumeration with dispatch along the generated MRO, true ancestors and index path; the cache stays consistent "
             "(visit_twice); preorder has nodeCount entries with pairwise distinct, lexicographically increasing paths; the "
             "default transformer gives an eqv, identically printing tree with the same layout at every path.",
             NOTE_COMMON + "Object identity / non-mutation are checked on the implementation only (ids, deep snapshots).", "5 C08"),
     "C09": (
-        "Lean 4 proof (eqv <-> content equality, clone lemmas) + translator (class table by decide) + "
-        "correspondence",
+        "Lean 4 proof (eqv <-> content equality, clone lemmas) + translator (class table by decide; clone_item and __str__ "
+        "of every class translated from the source by symbolic execution, tools/pysym.py: Props/GenClone, Props/GenPrint) + "
+        "correspondence (incl. compare - edit in place - compare again)",
         "Theorems for all pairs of trees: eqv a b <-> content a = content b (hence equivalence relation), "
         "layout/positions/names never matter; clone_item keeps class, layout, own attributes and gives back an "
         "equal, identically printing node once it has the children. The per-class attribute lists the generic "
